@@ -185,6 +185,10 @@ class Acl(AceGroup):
                 item._platform = self._platform
                 item.version = self.version
                 item._type = self._type
+                if item.port_nr != self._port_nr:
+                    item.port_nr = self._port_nr
+                if item.protocol_nr != self._protocol_nr:
+                    item.protocol_nr = self._protocol_nr
                 _items.append(item)
             # dict
             elif isinstance(item, dict):
